@@ -617,7 +617,8 @@ def wap_autodetect_obligations(ctx, rep, rule="R02g"):
         table = None
         undetermined = False
         w = Walker(prog, ctx.resolver, call_value=cv, unroll=len(lines) + 2, exact_loops=True,
-                   assumptions={"hasattr(self.requesthandler, 'pygopherd_http_slurped')": Const(False)})
+                   assumptions={"hasattr(self.requesthandler, 'pygopherd_http_slurped')": Const(False)},
+                   inline=lambda fn, t, d: d < 3 and (t.bound_cls is not None or (fn.cls is None and fn.module.name.startswith("pygopherd.protocols"))))
         tables = set()
         for p in w.run(hs, http):
             if p.kind == "raise":
@@ -650,7 +651,8 @@ def wap_autodetect_obligations(ctx, rep, rule="R02g"):
 
         facts = {"self.requestparts[1]": Const("/docs/a.txt"), "self.httpheaders": Const(table)}
         w2 = Walker(prog, ctx.resolver, call_value=cv2, assumptions=facts, sticky=set(facts), unroll=6, exact_loops=True,
-                    inline=lambda fn, t, d: d < 3 and t.bound_cls is not None and fn.name not in ("headerslurp",))
+                    inline=lambda fn, t, d: d < 3 and (t.bound_cls is not None or (fn.cls is None and fn.module.name.startswith("pygopherd.protocols")))
+                    and fn.name not in ("headerslurp",))
         verdicts = set()
         for p in w2.run(can, wap, facts=dict(facts)):
             if p.kind == "raise":
